@@ -12,6 +12,10 @@ def main():
     with open(jobfile) as f:
         job = json.load(f)
     sys.setrecursionlimit(10000)
+    if os.environ.get("XV_PYPATH"):
+        import xdsl
+        if not os.path.abspath(xdsl.__file__).startswith(os.path.abspath(os.environ["XV_PYPATH"])):
+            sys.exit(f"XV_PYPATH set but xdsl imported from {xdsl.__file__}")
     mod = importlib.import_module(f"xv.checks.{pid.lower()}")
     res = mod.work(job)
     tmp = outfile + ".tmp"
